@@ -436,6 +436,42 @@ def session_policing(chk):
                           f"consulted {events.count('wait')} times (events {events[:12]})",
                           {"kind": "oracle", "lines": [f"async {what}"], "impl": [str(events)],
                            "expected": "one policer wait before every request"})
+    # limit_rps installs the limiter for every protocol version and both clients
+    from gufo.snmp.async_client import SnmpSession as ASessionV
+    for ver in (SnmpVersion.v1, SnmpVersion.v2c):
+        for mode in ("sync", "async"):
+            if mode == "sync":
+                sx = SnmpSession("127.0.0.1", port=env.agent.port, community="public", version=ver, limit_rps=10, timeout=0.05)
+            else:
+                async def mk(ver=ver):
+                    return ASessionV("127.0.0.1", port=env.agent.port, community="public", version=ver, limit_rps=10, timeout=0.05)
+                sx = e2e.run_coro(mk(), 5.0)
+            n += 1
+            pol = getattr(sx, "_policer", None)
+            if not isinstance(pol, RPSPolicer) or pol._delta != 10 ** 8:
+                chk.violation("oracle", f"{mode} SnmpSession(version={ver.name}, limit_rps=10) has no RPSPolicer with a 100 ms interval "
+                              f"(limiter: {type(pol).__name__})", {"kind": "oracle", "lines": [f"{mode} {ver.name} limit_rps=10"]})
+    # one limiter shared by several short-lived sessions (`with SnmpSession(policer=p)` again and again): the slots it has
+    # handed out stay handed out, entering a session does not start the accounting afresh
+    import time as _t
+    answering = e2e.ThreadAgent(lambda dg: [(0, e2e.Peer("v2c").response(ber.decode_message(dg), [ber.varbind((1, 3, 6, 1), ber.INT(1))]))])
+    try:
+        def shared_run():
+            pol = RPSPolicer(5)
+            t0 = _t.monotonic()
+            for _ in range(4):
+                with SnmpSession("127.0.0.1", port=answering.port, community="public", version=SnmpVersion.v2c, policer=pol, timeout=1.0) as sx_:
+                    sx_.get("1.3.6.1")
+            return _t.monotonic() - t0
+        el = shared_run()
+        if el < 0.55:
+            el = min(el, shared_run(), shared_run())
+        n += 1
+        if el < 0.55:
+            chk.violation("oracle", f"4 requests through one RPSPolicer(5) shared by 4 successive `with SnmpSession(...)` blocks took {el:.3f} s; "
+                          "3 intervals of 0.2 s must separate them", {"kind": "oracle", "lines": ["shared policer across sessions"]})
+    finally:
+        answering.stop = True
     # limit_rps builds an RPSPolicer with the right interval
     s = SnmpSession("127.0.0.1", port=env.agent.port, limit_rps=10, timeout=0.05)
     if not isinstance(s._policer, RPSPolicer) or s._policer._delta != 10 ** 8:
